@@ -1,7 +1,7 @@
 (* Property C12 -- segment iteration agrees with the '/'-split of the text.  Statements only. *)
 From Coq Require Import List NArith Bool Arith.
 Import ListNotations.
-Require Import V.Regex V.Parse V.ParseProofs V.PathSpec V.Splice V.Setters V.Iter V.IterProofs V.IterAll.
+Require Import V.Regex V.Parse V.ParseProofs V.PathSpec V.Splice V.Setters V.Iter V.IterProofs V.IterAll V.PathQ V.C12Proofs.
 Local Open Scope nat_scope.
 
 (* A non-empty path is pfx ++ join l with pfx = "" or "/" and l its non-empty list of '/'-free
@@ -24,6 +24,12 @@ Theorem C12_interleave_at : forall (pfx : str) (l : list str),
   exists st, run pfx l w (ItNonEmpty (o pfx l k) (o pfx l (length l - m))) = Some (expect pfx l w k m, st).
 Proof. exact interleave. Qed.
 Print Assumptions C12_interleave_at.
+
+(* hence the forward iteration of ANY path free of '?' and '#' (every valid path) yields exactly the
+   '/'-separated pieces of its text after the optional leading '/', none for "" and "/" *)
+Theorem C12_segments_are_the_split : forall p, none_of [QM; HASH] p -> map (slice p) (pq_segments p) = segs p.
+Proof. exact segments_are_the_split. Qed.
+Print Assumptions C12_segments_are_the_split.
 
 (* joining the '/'-split reproduces the path (PathSpec) *)
 Theorem C12_join_split : forall p : str, join (split p) = p.
